@@ -17,7 +17,7 @@ N == Len(Tr)
 VARIABLES l, sc, s, cnt
 Tags(conds) == { c[2] : c \in { x \in conds : x[1] } }
 S0 == [added |-> {}, done |-> {}, closed |-> {}, inh |-> {}, lclosed |-> FALSE, cancelled |-> FALSE, opclosed |-> FALSE, ret |-> FALSE,
-       now |-> 0, dl0 |-> << >>, fresh |-> {}, bad |-> {}]
+       now |-> 0, dl0 |-> << >>, fresh |-> {}, bad |-> {}, blocked |-> FALSE]
 Get(f, k, d) == IF k \in DOMAIN f THEN f[k] ELSE d
 Put(f, k, v) == [x \in DOMAIN f \cup {k} |-> IF x = k THEN v ELSE f[x]]
 
@@ -48,8 +48,14 @@ Step(e) ==
      [] e.e = "rest"   -> [s EXCEPT !.bad = @ \cup Tags({ << e.gs < 0 \/ e.gh < 0 \/ e.ga < 0 \/ e.gr < 0, "C20" >>,
                                                           << e.quiet /\ ~s.ret /\ e.gr # Cardinality(s.added \ s.done), "C20" >>,
                                                           << e.quiet /\ s.added \ s.done = {} /\ (e.gs # 0 \/ e.gh # 0 \/ e.ga # 0 \/ e.gr # 0), "C20" >> })]
+     \* after cancellation, with every gate open, every deadline expired and every peer gone, connection goroutines are still
+     \* blocked at the same place inside the server's own code in three goroutine dumps one second apart (harness blockedForGood)
+     [] e.e = "blocked" -> [s EXCEPT !.blocked = TRUE]
      [] e.e = "fin"    -> [s EXCEPT !.bad = @ \cup Tags({ << e.gs < 0 \/ e.gh < 0 \/ e.ga < 0 \/ e.gr < 0, "C20" >>,
-                                                          << e.returned /\ (e.gs # 0 \/ e.gh # 0 \/ e.ga # 0 \/ e.gr # 0), "C20" >> })]
+                                                          << e.returned /\ (e.gs # 0 \/ e.gh # 0 \/ e.ga # 0 \/ e.gr # 0), "C20" >>,
+                                                          \* Serve does not return although nothing is left for the environment to do
+                                                          << ~e.returned /\ s.blocked, "C17" >>,
+                                                          << ~e.returned /\ s.blocked /\ (e.gs # 0 \/ e.gh # 0 \/ e.ga # 0 \/ e.gr # 0), "C20" >> })]
      [] OTHER -> s
 
 Init == l = 1 /\ sc = "" /\ s = S0 /\ cnt = [sched |-> 0, returned |-> 0, stuck |-> 0]
